@@ -183,6 +183,7 @@ def c01_rf18(run):
     run.min_instances('RF18', 40)
     rf_flow.rf33(run)
     rf_flow.rf32(run)
+    rf_flow.rf36(run)
 
 
 def c04_rf18(run):
